@@ -84,7 +84,7 @@ fn applies(en: &Entry, rel: Rel) -> bool {
 fn strategy(rel: Rel, exact: bool) -> impl Fn(Tier) -> BoxedStrategy<Case> + Send + Sync {
     move |tier: Tier| {
         let idx: Vec<usize> = (0..TABLE.len()).filter(|i| applies(&TABLE[*i], rel)).collect();
-        (proptest::sample::select(idx), 1usize..=tier.pick(20, 64), gen::dyadic_scale(), 1i64..=48, 1i64..=48, -64i64..=64, 0u32..4, -30i64..=30)
+        (proptest::sample::select(idx), 1usize..=tier.pick(20, 64), gen::dyadic_scale(), 1i64..=48, 1i64..=48, -64i64..=64, 0u32..4, prop_oneof![3 => -30i64..=30, 2 => -200i64..=200])
             .prop_flat_map(move |(i, n, sc, p, q, r, be, k2)| {
                 let en = TABLE[i];
                 let n = n.max(en.min_n);
@@ -98,13 +98,21 @@ fn strategy(rel: Rel, exact: bool) -> impl Fn(Tier) -> BoxedStrategy<Case> + Sen
                         Rel::Scale if exact => (Rat(p, q), Rat(0, 1)),
                         Rel::Affine if exact => (Rat(p, q), Rat(r << (10 * be), 8)),
                         // f64 legs: a = 2^k, b = 0 (bit-exact commutation with every IEEE operation)
-                        _ => (if k2 >= 0 { Rat(1 << k2, 1) } else { Rat(1, 1 << (-k2)) }, Rat(0, 1)),
+                        // (a = 2^k2 travels in ints[1]: k2 ranges over -200..200, far beyond an i64 ratio; tiny and huge units
+                        // expose absolute thresholds such as `< epsilon` that a moderate unit never meets)
+                        _ => (Rat(1, 1), Rat(0, 1)),
                     };
-                    Case { spec: Some((en.mk)(n)), xs, a, b, ints: vec![i as i64], ..Default::default() }
+                    let pow2 = !(rel == Rel::Negation || exact);
+                    Case { spec: Some((en.mk)(n)), xs, a, b, ints: if pow2 { vec![i as i64, k2] } else { vec![i as i64] }, ..Default::default() }
                 })
             })
             .boxed()
     }
+}
+
+fn pow2_r(k: i64) -> R {
+    let p = R::from_integer(num::BigInt::from(1) << k.unsigned_abs() as usize);
+    if k >= 0 { p } else { R::one() / p }
 }
 
 fn flat_window(h: &[R], t: usize, n: usize) -> bool {
@@ -124,7 +132,9 @@ fn check(rel: Rel, exact: bool) -> impl Fn(&Case) -> Verdict + Send + Sync {
         };
         let sc = if exact { "Q" } else { "f64" };
         let id = format!("C12/{rname}/{}/{sc}", en.name);
-        let (a, b) = (case.a.big(), case.b.big());
+        let k2 = case.ints.get(1).copied();
+        let (a, b) = (match k2 { Some(k) => pow2_r(k), None => case.a.big() }, case.b.big());
+        let ashow = match k2 { Some(k) => format!("2^{k}"), None => format!("{}/{}", case.a.0, case.a.1) };
         let h = bigs(&case.xs);
         let h2: Vec<R> = h.iter().map(|x| &a * x + &b).collect();
         // the transformed view: Min(-x) is compared with -Max(x)
@@ -133,7 +143,7 @@ fn check(rel: Rel, exact: bool) -> impl Fn(&Case) -> Verdict + Send + Sync {
             (run_q(&spec2, &h), run_q(spec, &h2))
         } else {
             let x1 = f64s(&case.xs);
-            let af = case.a.f64();
+            let af = match k2 { Some(k) => 2f64.powi(k as i32), None => case.a.f64() };
             let x2: Vec<f64> = x1.iter().map(|x| af * x).collect();
             let cv = |v: Vec<Option<f64>>| v.into_iter().map(|o| o.map(XV::from_f64)).collect();
             (cv(run_f64(&spec2, &x1)), cv(run_f64(spec, &x2)))
@@ -156,7 +166,7 @@ fn check(rel: Rel, exact: bool) -> impl Fn(&Case) -> Verdict + Send + Sync {
                         if u == v {
                             continue; // the same non-finite value on both sides: finiteness is C08's subject
                         }
-                        return Verdict::fail(format!("{id}|nonfinite"), format!("{} step {t}: {} vs {} (a = {}/{}, b = {}/{}); x = {}", spec.show(), u.show(), v.show(), case.a.0, case.a.1, case.b.0, case.b.1, show_rats(&case.xs)));
+                        return Verdict::fail(format!("{id}|nonfinite"), format!("{} step {t}: {} vs {} (a = {ashow}, b = {}/{}); x = {}", spec.show(), u.show(), v.show(), case.b.0, case.b.1, show_rats(&case.xs)));
                     };
                     outs.insert(show(u));
                     let want: R = match rel {
@@ -188,7 +198,7 @@ fn check(rel: Rel, exact: bool) -> impl Fn(&Case) -> Verdict + Send + Sync {
                         let partial = t + 1 < n;
                         return Verdict::fail(
                             format!("{id}|value{}", if partial { "|partial_window" } else { "" }),
-                            format!("{} step {t}: view(x) = {}, view(transformed x) = {} but the relation requires {} (a = {}/{}, b = {}/{}); x = {}", spec.show(), show(u), show(v), show(&want), case.a.0, case.a.1, case.b.0, case.b.1, show_rats(&case.xs)),
+                            format!("{} step {t}: view(x) = {}, view(transformed x) = {} but the relation requires {} (a = {ashow}, b = {}/{}); x = {}", spec.show(), show(u), show(v), show(&want), case.b.0, case.b.1, show_rats(&case.xs)),
                         );
                     }
                     compared += 1;
@@ -209,7 +219,10 @@ fn check(rel: Rel, exact: bool) -> impl Fn(&Case) -> Verdict + Send + Sync {
         if rel == Rel::Affine && case.b.0.abs() >= (1 << 20) {
             l.push("huge_offset".into());
         }
-        let identity = case.a == Rat(1, 1) && case.b.is_zero();
+        let identity = case.a == Rat(1, 1) && case.b.is_zero() && k2.unwrap_or(0) == 0;
+        if k2.map_or(false, |k| k.abs() > 52) {
+            l.push("unit_beyond_2^52".into());
+        }
         Verdict::pass(!identity && compared >= 3 && outs.len() >= 2, l)
     }
 }
@@ -219,7 +232,7 @@ pub fn clauses() -> Vec<Clause> {
     vec![
         Clause::generated("C12", "C12/affine/Q", format!("{g} x vs a x + b with a = p/q (1..48 each) and b = r 2^(10e)/8 (|r| <= 64, e in 0..3: offsets up to 2^30 times the grid move everything across 0). HLNormalizer, Vsct, CTI, NET, EFT unchanged, exactly in Q (2^-150 where a root is involved); identical readiness. Non-trivial: (a,b) != (1,0), >= 3 steps compared, >= 2 distinct outputs."), 6000, 150_000, strategy(Rel::Affine, true), check(Rel::Affine, true)).with_shard(150),
         Clause::generated("C12", "C12/scale/Q", format!("{g} x vs a x, a = p/q. Rsi, MyRSI, LaguerreRSI, Vst (flat windows exempt: it returns x_t there by C02's convention), Roc, CoG, BinaryEntropy, TrendFlex, ReFlex, LnReturn, Drawdown, and the list-(i) views unchanged; Min, Max, Sma, Ema, Alma, Cumulative, WelfordOnline, WelfordRolling, LaguerreFilter, SuperSmoother, RoofingFilter, CyberCycle scale by a. Exact in Q."), 8000, 200_000, strategy(Rel::Scale, true), check(Rel::Scale, true)).with_shard(100),
-        Clause::generated("C12", "C12/scale/f64", format!("{g} a = 2^k, k in -30..30: the same relations must hold bit for bit in f64 (scaling by a power of two commutes with every IEEE operation absent over/underflow)."), 20_000, 500_000, strategy(Rel::Scale, false), check(Rel::Scale, false)).with_shard(1000),
+        Clause::generated("C12", "C12/scale/f64", format!("{g} a = 2^k, k in -30..30 (3 in 5) or -200..200 (2 in 5; units far below f64 epsilon and far above 2^53): the same relations must hold bit for bit in f64 (scaling by a power of two commutes with every IEEE operation absent over/underflow)."), 20_000, 500_000, strategy(Rel::Scale, false), check(Rel::Scale, false)).with_shard(1000),
         Clause::generated("C12", "C12/negation/Q", format!("{g} x vs -x: HLNormalizer, Vsct, Vst, MyRSI, CTI, NET, TrendFlex, ReFlex negate; Rsi -> 100 - Rsi on non-flat windows; Min(-x) = -Max(x). Exact in Q."), 6000, 150_000, strategy(Rel::Negation, true), check(Rel::Negation, true)).with_shard(150),
         Clause::generated("C12", "C12/negation/f64", format!("{g} the same relations in f64 up to 1e-9 (1 + |value|)."), 12_000, 300_000, strategy(Rel::Negation, false), check(Rel::Negation, false)).with_shard(1000),
     ]
